@@ -354,3 +354,46 @@ Proof. eexists. eexists. vm_compute. repeat split. Qed.
 Example C03_ex_rejects_on_tree :
   tupdate first_free 1 10 1 0 ex_tree = TPanic PAfterEnd /\ tupdate first_free 1 3 0 7 ex_tree = TPanic PDelAfterEnd.
 Proof. vm_compute. split; reflexivity. Qed.
+
+(* ==== run-length form of the plain array (files of 2^31 .. 2^32-1 lines; coq/theories/File/Rle.v) ====
+   The replay driver cannot materialise the lines of a 3 000 000 000-line file; it judges such files with the
+   run-length functions below (extracted).  A run is (value, count); expand r is the array the runs stand for;
+   runs_okb r = every count is positive.  These theorems say that the run-length judgement IS the judgement of
+   arr_update / validb / must_panicb / flatten on the expanded array. *)
+From Herc Require Import File.Rle.
+
+(* the run-length edit is the plain-array edit, and its result is again a list of non-empty runs *)
+Theorem C03_rle_update : forall t pos ins del r, runs_okb r = true ->
+  expand (rle_update t pos ins del r) = arr_update t pos ins del (expand r) /\
+  runs_okb (rle_update t pos ins del r) = true.
+Proof. exact rle_update_spec. Qed.
+Print Assumptions C03_rle_update.
+
+(* comparing canonical run lists is comparing the expanded lines (both directions: no missed difference, no false one) *)
+Theorem C03_rle_compare : forall r1 r2, rle_norm r1 = rle_norm r2 <-> expand r1 = expand r2.
+Proof. exact rle_norm_eq_iff. Qed.
+Print Assumptions C03_rle_compare.
+
+(* the runs read off the tracker's node list are its flattened lines *)
+Theorem C03_rle_flatten : forall s, expand (rle_flatten s) = flatten s /\ runs_okb (rle_flatten s) = true.
+Proof. exact rle_flatten_expand. Qed.
+Print Assumptions C03_rle_flatten.
+
+(* the domain predicate, the rejection predicate, the length and the deleted slice on runs are those of the expanded array *)
+Theorem C03_rle_domain : forall t pos ins del r, runs_okb r = true ->
+  rle_validb t pos ins del r = validb t pos ins del (expand r) /\
+  rle_in_rangeb t pos ins del r = in_rangeb t pos ins del (expand r) /\
+  rle_must_panicb t pos ins del r = must_panicb t pos ins del (expand r) /\
+  rle_len r = alen (expand r) /\
+  expand (rle_slice pos del r) = firstn (Z.to_nat del) (skipn (Z.to_nat pos) (expand r)).
+Proof. exact rle_domain. Qed.
+Print Assumptions C03_rle_domain.
+
+(* non-vacuity: a 3 000 000 000-line file, a replacement near line 100 and a deletion across 2^31 *)
+Example C03_ex_rle :
+  rle_update 7 100 10 5 [(0, 3000000000)] = [(0, 100); (7, 10); (0, 2999999895)] /\
+  rle_update 8 2147483600 0 100 [(0, 100); (7, 10); (0, 2999999895)] = [(0, 100); (7, 10); (0, 2999999795)] /\
+  rle_validb 8 2147483600 0 100 [(0, 100); (7, 10); (0, 2999999895)] = true /\
+  rle_must_panicb 8 3000000000 0 6 [(0, 100); (7, 10); (0, 2999999895)] = true /\
+  rle_flatten [(0, 0); (100, 7); (110, 0); (3000000005, TreeEnd)] = [(0, 100); (7, 10); (0, 2999999895)].
+Proof. vm_compute. repeat split. Qed.
